@@ -178,6 +178,12 @@ fn ty_example(
     //  general handling of type definitions
     match &ty.type_def {
         scale_info::TypeDef::Composite(composite) => {
+            // `Cow<T>` is represented by its owned inner type `T` in the generated code:
+            if ty.path.namespace().is_empty() && ty.path.ident().as_deref() == Some("Cow") {
+                if let Some(inner_ty) = ty.type_params.first().and_then(|p| p.ty) {
+                    return transformer.resolve(inner_ty.id);
+                }
+            }
             let struct_path = transformer.resolve_type_path_omit_generics(type_id)?;
             let has_unused_type_params = transformer.has_unused_type_params(ty)?;
 
